@@ -109,12 +109,13 @@ fn explain_sig(a: &Actual, r: &RefSig, d: &RefSig, eol_pre: bool, eol_clean: boo
         return Some(vec![F_BAD]);
     }
     // quirks derived from option *values* are unspecified when an option kind is repeated
-    let strip = |q: &[String], amb: bool| -> Vec<String> {
-        q.iter().filter(|x| !(amb && ["ts1-", "ts2+", "exws"].contains(&x.as_str()))).cloned().collect()
+    // (`ts1-` stays specified when there is exactly one timestamp option carrying its TSval octets)
+    let strip = |q: &[String], x: &RefSig| -> Vec<String> {
+        q.iter().filter(|s| !(x.ambiguous_values && (["ts2+", "exws"].contains(&s.as_str()) || (s.as_str() == "ts1-" && !x.ts1_decided)))).cloned().collect()
     };
     let full = |x: &RefSig| -> bool {
         a.olayout == x.olayout
-            && strip(&a.quirks_sorted, x.ambiguous_values) == strip(&x.quirks, x.ambiguous_values)
+            && strip(&a.quirks_sorted, x) == strip(&x.quirks, x)
             && (x.ambiguous_values || (a.mss == x.mss && a.wscale == x.wscale && a.wsize == x.wsize))
     };
     // a repeated option kind may repeat its value-derived quirk; nothing else may be duplicated
@@ -332,6 +333,14 @@ fn sym_opt(k: u8, salt: u32) -> Vec<u8> {
         3 => pkt::opt_ws((salt % 16) as u8),
         4 => pkt::opt_sok(),
         5 => pkt::opt_sack(1),
+        6 if salt % 7 == 6 => {
+            // timestamp option of non-standard length (6..9 or 12): TSval present, TSecr cut short or followed by extra octets
+            let len = [6usize, 7, 8, 9, 12][((salt / 7) % 5) as usize];
+            let tsval: u32 = if salt % 2 == 0 { 0 } else { 0x2000u32.wrapping_add(salt) };
+            let mut d = tsval.to_be_bytes().to_vec();
+            d.extend_from_slice(&[0, 0, 0, if salt % 3 == 0 { 7 } else { 0 }, 0, 0]);
+            pkt::opt_unknown(8, &d[..len - 2])
+        }
         6 => pkt::opt_ts(if salt % 5 == 0 { 0 } else { 0x1000u32.wrapping_add(salt) }, if salt % 3 == 0 { 7 } else { 0 }),
         _ => pkt::opt_unknown([9u8, 19, 30, 34, 253, 254, 6, 7][(salt % 8) as usize], &[0xaa; 2][..(salt % 3) as usize]),
     }
